@@ -40,6 +40,7 @@ def batch_obligations(prefix, fam, harness, defines, variant="dbg", truncations=
         maxn = max(len(s["bytes"]) for s in b)
         src = sk.c_cases(b, limit, truncations)
         obls.append(Obl("%s_batch%03d_%s" % (prefix, bi, variant), harness, defines, variant=variant, unwind=maxn + extra_unwind + int(defines.get("P_SUFFIX", 0) or 0),
+                        unwindset=tight_unwindset(b) if ptrcheck else [],
                         gen_src={"cases.h": src}, timeout=timeout, leak=leak, funcs=funcs or [], mem_gb=mem_gb, flags=flags or [], ptrcheck=ptrcheck,
                         desc=desc, bounds="%d skeletons, <= %d bytes each%s; all data bytes symbolic" % (len(b), maxn, ", every truncation offset" if truncations else ""),
                         sample={"skeletons": [{"heads": s["name"], "bytes": " ".join("??" if x < 0 else "%02x" % x for x in s["bytes"]), "expected": repr(s["outcome"])} for s in b[:3]]}))
@@ -59,7 +60,23 @@ def tree_obligations(prefix, fam, defines, variant="dbg", weight_cap=120, max_ca
         maxnodes = max(len(s["outcome"].nodes) for s in b)
         src = sk.c_trees(b)
         obls.append(Obl("%s_batch%03d_%s" % (prefix, bi, variant), "h_ser.c", defines, variant=variant, unwind=max(maxn + 9 * maxnodes + 8, 52),
+                        unwindset=tight_unwindset(b) if ptrcheck else [],
                         gen_src={"trees.h": src}, timeout=timeout, leak=leak, funcs=funcs or [], mem_gb=mem_gb, flags=flags or [], ptrcheck=ptrcheck,
                         desc=desc, bounds="%d trees (<= %d nodes each); all scalar values and payload bytes symbolic" % (len(b), maxnodes),
                         sample={"trees": [{"name": s["name"], "nodes": len(s["outcome"].nodes), "built_by": "construction API" if s.get("built") else "cbor_load"} for s in b[:4]]}))
     return obls
+
+
+REC_FUNCS = ["cbor_decref", "cbor_copy", "cbor_serialize", "cbor_serialized_size", "_cbor_nested_describe", "_cbor_builder_append", "cbor_serialize_bytestring", "cbor_serialize_string", "tree_check", "ref_encode", "addr_collect"]
+REC_LOOPS = ["cbor_decref.0", "cbor_decref.1", "cbor_decref.2", "cbor_decref.3", "cbor_copy.0", "cbor_copy.1", "cbor_copy.2", "cbor_copy.3",
+             "cbor_serialized_size.0", "cbor_serialized_size.1", "cbor_serialized_size.2", "cbor_serialized_size.3", "cbor_serialize_map.0", "cbor_serialize_array.0",
+             "cbor_serialize_string.0", "cbor_serialize_bytestring.0", "_cbor_nested_describe.0", "_cbor_nested_describe.1", "_cbor_nested_describe.2", "_cbor_nested_describe.3", "_cbor_nested_describe.4"]
+
+
+def tight_unwindset(batch):
+    """Per-function recursion bounds and per-loop bounds for the recursive tree functions, derived from the batch's concrete shapes.
+    On a correct tree they are never reached (unwinding assertions would say so); on a tree corrupted by a defect they keep symex from
+    unrolling garbage sizes to the uniform bound, so the failed memory-safety property is reported instead of a timeout."""
+    D = max([s["outcome"].depth for s in batch] + [max((len(s["outcome"].nodes) for s in batch), default=1) if any(s.get("built") for s in batch) else 0]) + 3
+    C = max([x["n"] for s in batch for x in s["outcome"].nodes if x["kind"] not in (sk.X_UINT, sk.X_NEGINT, sk.X_TAG, sk.X_CTRL)] + [1]) + 2
+    return ["%s:%d" % (f, D) for f in REC_FUNCS] + ["%s:%d" % (l, C) for l in REC_LOOPS]
